@@ -48,7 +48,14 @@ failed=$(grep -E '^(FAIL|---FAIL|--- FAIL)' "$out/suite.log" | head -20)
 if [ $suite -ne 0 ]; then
   # rerun failed packages once (known timing flakes under load)
   fp=$(grep -E '^FAIL\s+github.com' "$out/suite.log" | awk '{print $2}' | sed 's#github.com/basekick-labs/arc#.#' | tr '\n' ' ')
-  if [ -n "$fp" ]; then go test -vet=off -count=1 -timeout 25m $fp > "$out/suite_rerun.log" 2>&1; suite=$?; fi
+  # timing-sensitive tests (raft election, flush timing) fail under heavy machine load: retry the failed packages serially, up to 3 times
+  for attempt in 1 2 3; do
+    [ -z "$fp" ] && break
+    go test -vet=off -count=1 -p 1 -timeout 25m $fp > "$out/suite_rerun.log" 2>&1; suite=$?
+    [ $suite -eq 0 ] && break
+    fp=$(grep -E '^FAIL\s+github.com' "$out/suite_rerun.log" | awk '{print $2}' | sed 's#github.com/basekick-labs/arc#.#' | tr '\n' ' ')
+    sleep 20
+  done
 fi
 # (3) demo fails with patch
 place_demos
